@@ -194,6 +194,14 @@ func rebuild(ctx context.Context, h *History) (*site, error) {
 }
 
 func replayC21(ctx context.Context, raw []byte) (string, error) {
+	var head struct {
+		Replay struct {
+			Leg string `json:"leg"`
+		} `json:"replay"`
+	}
+	if err := json.Unmarshal(raw, &head); err == nil && head.Replay.Leg == "http" {
+		return replayC21HTTP(ctx, raw)
+	}
 	var file struct {
 		Replay struct {
 			Listing  string  `json:"listing"`
